@@ -305,10 +305,133 @@ class NbFault(Leg):
     def nontrivial(self, case, obs):
         return obs is not None and any(a == ["boom"] for a in obs["answers"])
 
+def filt_switch(w, fid):
+    """one callback OBJECT per (world, fid) whose fault can be switched on and off (`armed`): ids below 10 are the total
+    std_filt tables; 10 + L raises Boom on link L while armed and otherwise accepts links with (link id + fid) even
+    (Coq twins: FaultsCheck.std_filtf when armed, TravFaults.std_calm when not)"""
+    if fid is None:
+        return None
+
+    def make():
+        base = Q.std_filt(w, fid) if fid < 10 else None
+
+        def f(e, v2):
+            if base is not None:
+                return base(e, v2)
+            l = w.id_of(e)
+            if f.armed and l == fid - 10:
+                raise Boom()
+            return (l + fid) % 2 == 0
+        f.armed = False
+        return f
+    return Q._memo(w, "filtsw", fid, make)
+
+
+class TravFault(Leg):
+    name = "travfault"
+    imports = "From EG Require Import Base State Nbrs Struct StructCheck Cache Faults FaultsCheck Trav TravFaults."
+    checkfn = "tfcheck"
+    case_type = "state * bool * list (tfq * tfa)"
+    rule = ("state import: random multigraphs with a universe; a sequence of 5-10 calls - bft / dft_recursive / dft_iterative with an "
+            "ff_via callback and neighbors() with the same callback OBJECT - where the callback is armed (raises on one chosen link) "
+            "or behaving from call to call, caching off / on: a traversal aborted by the callback must leave the graph unchanged and "
+            "only truthful memo entries, so that the retried call answers as on a cold memo; every outcome (list / exception / the "
+            "callback's own exception) is compared with the model TravFaults.tf_run threaded through its memo; non-trivial = some "
+            "traversal ended with the callback's exception after another vertex's neighbours had been computed")
+    quick_n = 200
+    thorough_n = 5000
+    shard = 40
+    KIND = {"KBft": breadthfirst.bft, "KDfr": depthfirst.dft_recursive, "KDfi": depthfirst.dft_iterative}
+
+    def generate(self, rng, n):
+        for _ in range(n):
+            ops, vids, lids, uid = Q.gen_graph_ops(rng, nv=rng.randint(2, 5), nl=rng.randint(2, 8), odd=rng.choice([0.0, 0.0, 0.2]))
+            if not lids:
+                continue
+            fids = [10 + rng.choice(lids) for _ in range(2)] + [rng.choice([None, 2, 3])]
+            d, u = rng.choice(["Fwd", "AnyDir", "AnyDir"]), rng.choice(["UNb", "UNb", "UErr", "UNon"])
+            qs = []
+            for _ in range(rng.randint(5, 10)):
+                f = rng.choice(fids)
+                armed = rng.random() < 0.5
+                if rng.random() < 0.65:
+                    qs.append(["TR", armed, rng.choice(list(self.KIND)), rng.choice([uid, None]) if uid is not None else None,
+                               rng.choice(vids), d, u, f])
+                else:
+                    qs.append(["NB", armed, rng.choice(vids), d, u, f])
+            yield {"ops": ops, "queries": qs, "caching": rng.random() < 0.75}
+
+    def observe(self, case):
+        w = H.World()
+        try:
+            for op in case["ops"]:
+                w.do(op)
+            snap = w.snapshot()
+            Vertex.NEIGHBOR_CACHING = case["caching"]
+            answers, changed = [], None
+            for qi, q in enumerate(case["queries"]):
+                armed, f = q[1], q[-1]
+                cb = filt_switch(w, f)
+                if cb is not None:
+                    cb.armed = armed
+                try:
+                    if q[0] == "NB":
+                        r = helpers.neighbors(w.get(q[2], H.VERTEX_KINDS), direction_sensitive=Q.DIRC[q[3]], unknown_handling=Q.UNKC[q[4]],
+                                              filterfunc=cb)
+                    else:
+                        uni = w.get(q[3], ["KUniverse"]) if q[3] is not None else None
+                        r = self.KIND[q[2]](uni, w.get(q[4], H.VERTEX_KINDS), direction_sensitive=Q.DIRC[q[5]],
+                                            unknown_handling=Q.UNKC[q[6]], ff_via=cb)
+                    answers.append(["list", [w.id_of(x) for x in r]])
+                except Boom:
+                    answers.append(["boom"])
+                except Exception as e:  # noqa: BLE001
+                    answers.append(["raise", type(e).__name__])
+                if changed is None and w.snapshot() != snap:
+                    changed = qi
+            return {"snap": snap, "answers": answers, "changed": changed}
+        except H.CaseInvalid:
+            return None
+        finally:
+            Vertex.NEIGHBOR_CACHING = False
+            w.close()
+
+    def oracle(self, case, obs):
+        if obs is None or obs["changed"] is None:
+            return []
+        q = case["queries"][obs["changed"]]
+        return [f"call {obs['changed']} ({q}) ended with {obs['answers'][obs['changed']]} and changed the graph"]
+
+    def term(self, case, obs):
+        if obs is None:
+            return None
+        qs = []
+        for q, a in zip(case["queries"], obs["answers"]):
+            ans = (f"TFList {H.c_oids(a[1])}" if a[0] == "list" else "TFRaise UserError" if a[0] == "boom"
+                   else f"TFRaise {a[1] if a[1] in H.EXN else 'IllTyped'}")
+            if q[0] == "NB":
+                t = f"TFNb {C.cbool(q[1])} {q[2]} {q[3]} {q[4]} {C.copt(q[5])}"
+            else:
+                t = f"TFTrav {C.cbool(q[1])} {q[2]} {C.copt(q[3])} {q[4]} {q[5]} {q[6]} {C.copt(q[7])} 0"
+            qs.append(f"({t}, {ans})")
+        return f"({H.c_state(obs['snap'])}, {C.cbool(case['caching'])}, {C.clist(qs, str)})"
+
+    def model_value(self, case, obs):
+        return "tfanswers " + self.term(case, obs)
+
+    def shrink_candidates(self, case):
+        qs = case["queries"]
+        for i in range(len(qs)):
+            if len(qs) > 1:
+                yield {**case, "queries": qs[:i] + qs[i + 1:]}
+
+    def nontrivial(self, case, obs):
+        return obs is not None and any(a == ["boom"] and q[0] == "TR" for q, a in zip(case["queries"], obs["answers"]))
+
 
 class C13(Prop):
     pid = "C13"
-    legs = [FaultEnumeration(), NbFault()]
+    legs = [FaultEnumeration(), NbFault(), TravFault()]
     assumptions = ["a callback's fault is its own exception propagating; callbacks do not mutate the graph themselves (re-entrancy "
                    "is outside the statement)", "the private neighbour memo is not an observable attribute",
                    "in the Coq model only neighbors() has a write effect (the memo); the renderers, traversals and searches are pure "
